@@ -821,6 +821,11 @@ func (fr *frame) callsiteObls(b *ssa.BasicBlock, st *state, ins ssa.Instruction,
 		}
 		vc.matchedSites[cl] = true
 		tr := fr.loopTrans(&loopInfo{header: b, body: map[*ssa.BasicBlock]bool{}}, st, nil)
+		// a parameter name denotes the parameter's entry value, also when the call's block merges later assignments
+		// to it (the current value is available as argK where it is passed on)
+		for name, v := range vc.contractTrans(fr.ct, fr.fn, nil, st, vc.entry).vars {
+			tr.vars[name] = v
+		}
 		// the actual arguments of the call: arg0, arg1, ... (the receiver of a method call is arg0)
 		for i, a := range callArgs(call) {
 			tr.vars[fmt.Sprintf("arg%d", i)] = tvar{fr.val(a), vtype{vc.c.sortOf(a.Type()), a.Type()}}
